@@ -137,6 +137,9 @@ type fakeServer struct {
 	// are delivered, before the reply is handed back: lets a suite order another client's step exactly
 	// between a read and the reader's next action
 	afterReply func(cl *fakeClient, cmd []string, r reply)
+	// beforeExec runs in the caller's goroutine before a command reaches the server (no lock held): a
+	// suite can hold a command back (a gate) to fix the order of commands of different goroutines
+	beforeExec func(cl *fakeClient, cmd []string)
 	owner   map[int][]string          // connection id -> the rueidisid: keys it SET (liveness keys; concurrent keepalives may create a spare one)
 }
 
@@ -547,6 +550,9 @@ func (f *fakeServer) runScript(cl *fakeClient, name string, keys, args []string)
 // ---- command dispatch
 
 func (f *fakeServer) exec(cl *fakeClient, ctx context.Context, cmd []string, cacheTTL time.Duration, cached bool) reply {
+	if f.beforeExec != nil {
+		f.beforeExec(cl, cmd)
+	}
 	r := f.exec1(cl, ctx, cmd, cacheTTL, cached)
 	if !f.hold {
 		f.flush()
